@@ -96,6 +96,8 @@ def run(an: Analysis, rep):
     from . import c05
     rep.run(c05.r053, an, SharedRules(rep, "R03.D", "docstring slot (shared with C05's R05.3): a function described with docstring None must not get its first string constant read as __doc__"))
     rep.run(c10.format_rules, an, SharedRules(rep, "R03.L", "line-table format constants (shared with C10's R10.*): 'each instruction carries the given line'"))
+    from .common import old_interpreter_rule
+    rep.run(old_interpreter_rule, an, rep, "R03.V", ["to_code"])
     from .common import rejection_paths_rule
     rep.run(rejection_paths_rule, an, rep, "R03.R", ["to_code"], ENCODER_REJECTIONS, "to_code")
     rep.run(c02.r028, an, SharedRules(rep, "R03.X", "the package's parser reassembles operands from their EXTENDED_ARG prefixes as CPython does (shared with C02's R02.8): 'decoding that code object again gives data equal to the input'"))
